@@ -9,6 +9,7 @@ every schedule.
 -/
 import AGH.Lemmas.Schedule
 import AGH.Lemmas.ScheduleFloat
+import AGH.Gen.C18Schedule
 namespace AGH.C18
 open AGH
 
@@ -493,5 +494,112 @@ theorem C18_model_meets_spec :
           · simp [he]
         rw [h3] at hnr
         simp only [specDecodeOK, h1, hrt, hnr, hloc, h3, Bool.and_true, beq_self_eq_true]
+
+/-! ## Translator tie: the decision core as the source states it (regenerated per run)
+
+`extract/cmd/c18` rewrites `Gen/C18Schedule.lean` from the typed syntax of
+`internal/schedule/schedule.go`: `dayRange.validate` as a decision table,
+`dayRange.contains` as a list of conjuncts, and the skeleton of
+`(*Weekly).Contains`.  The tables are INTERPRETED here and proved equal to the
+model's functions for every day range and offset, so a changed comparison,
+bound or case order in the source breaks a theorem, not just a sample. -/
+
+namespace T
+
+/-- Operands the tables may mention; anything else does not evaluate. -/
+def term (r : DayRange) (off : Int) (s : String) : Option Int :=
+  if s = "r.start" then some r.start
+  else if s = "r.end" then some r.stop
+  else if s = "offset" then some off
+  else if s = "0" then some 0
+  else if s = "maxDayRange" then some Gen.C18.maxDayRange
+  else none
+
+def cmpOp (s : String) : Option (Int → Int → Bool) :=
+  if s = "<" then some (fun a b => decide (a < b))
+  else if s = "<=" then some (fun a b => decide (a ≤ b))
+  else if s = ">" then some (fun a b => decide (a > b))
+  else if s = ">=" then some (fun a b => decide (a ≥ b))
+  else if s = "==" then some (fun a b => decide (a = b))
+  else if s = "!=" then some (fun a b => decide (a ≠ b))
+  else none
+
+def evalCmp (r : DayRange) (off : Int) (l op rhs : String) : Option Bool :=
+  match term r off l, cmpOp op, term r off rhs with
+  | some a, some f, some b => some (f a b)
+  | _, _, _ => none
+
+/-- A tagless `switch` whose bodies are `return nil` / `return <error>`: the
+first case whose guard holds decides; the result is "returns an error".  A
+table without a `default` that falls off the end does not evaluate. -/
+def evalSwitch (r : DayRange) : List (String × String × String × Bool) → Option Bool
+  | [] => none
+  | (l, op, rhs, e) :: rest =>
+    if op = "default" then some e
+    else if l = "r" ∧ op = "==" ∧ rhs = "dayRange{}" then
+      (if r = DayRange.zero then some e else evalSwitch r rest)
+    else
+      match evalCmp r 0 l op rhs with
+      | some true => some e
+      | some false => evalSwitch r rest
+      | none => none
+
+/-- A conjunction of comparisons. -/
+def evalConj (r : DayRange) (off : Int) : List (String × String × String) → Option Bool
+  | [] => some true
+  | (l, op, rhs) :: rest =>
+    match evalCmp r off l op rhs, evalConj r off rest with
+    | some a, some b => some (a && b)
+    | _, _ => none
+
+end T
+
+/-- `dayRange.validate` AS WRITTEN IN THE SOURCE rejects exactly the day ranges
+the model's `DayRange.validate` rejects — for every day range. -/
+theorem C18_T_validate_table_is_model (r : DayRange) :
+    T.evalSwitch r Gen.C18.validateCases =
+      some (match r.validate with | .ok _ => false | .error _ => true) := by
+  have hm : Gen.C18.maxDayRange = maxDayRange := by decide
+  simp only [Gen.C18.validateCases, T.evalSwitch, T.evalCmp, T.term, T.cmpOp, hm, DayRange.validate]
+  by_cases h0 : r = DayRange.zero
+  · simp [h0]
+  · by_cases h1 : r.start < 0
+    · simp [h0, h1]
+    · by_cases h2 : r.stop < 0
+      · simp [h0, h1, h2]
+      · by_cases h3 : r.start ≥ r.stop
+        · simp [h0, h1, h2, h3]
+        · by_cases h4 : r.start ≥ maxDayRange
+          · simp [h0, h1, h2, h3, h4]
+          · by_cases h5 : r.stop > maxDayRange
+            · simp [h0, h1, h2, h3, h4, h5]
+            · simp [h0, h1, h2, h3, h4, h5]
+
+/-- `dayRange.contains` as written is the model's half-open interval test. -/
+theorem C18_T_contains_table_is_model (r : DayRange) (off : Int) :
+    T.evalConj r off Gen.C18.containsConj = some (r.contains off) := by
+  simp [Gen.C18.containsConj, T.evalConj, T.evalCmp, T.term, T.cmpOp, DayRange.contains]
+
+/-- The skeleton of `(*Weekly).Contains` is the model's `contains`: the time is
+converted to the schedule's zone FIRST; afterwards only its weekday, clock and
+nanosecond are read (no elapsed-time arithmetic, no function of package time:
+what finding F8 and seed C01-9 broke); the offset sums hours, minutes and
+seconds with the model's units; the day is picked by the converted weekday. -/
+theorem C18_T_contains_skeleton :
+    Gen.C18.containsConvertsFirst = true ∧
+      Gen.C18.timeMethods = ["Weekday", "Clock", "Nanosecond"] ∧
+      Gen.C18.timeFuncs = [] ∧
+      Gen.C18.offsetUnits = [nsPerHour, nsPerMinute, nsPerSec] ∧
+      Gen.C18.dayByLocalWeekday = true ∧
+      Gen.C18.maxDayRange = maxDayRange := by
+  decide
+
+/-- non-vacuity: the interpreter distinguishes tables — with `>=` for the end
+bound a full day would be rejected -/
+example : T.evalSwitch ⟨0, maxDayRange⟩
+    [("r.start", ">=", "r.end", true), ("r.end", ">=", "maxDayRange", true), ("", "default", "", false)] =
+    some true := by decide
+example : T.evalSwitch ⟨0, maxDayRange⟩ Gen.C18.validateCases = some false := by decide
+example : T.evalSwitch ⟨0, 1⟩ [("r.start", "<", "nonsense", true)] = none := by decide
 
 end AGH.C18
